@@ -117,9 +117,23 @@ fn board_stream(rng: &mut Rng, wraps: u64, fault: Fault) -> Vec<Item> {
     if fault == Fault::FlipMarkerBit {
         let marks: Vec<usize> = items.iter().enumerate().filter(|(_, i)| matches!(i, Item::Marker { .. })).map(|(k, _)| k).collect();
         if !marks.is_empty() {
-            let k = marks[rng.below(marks.len() as u64) as usize];
-            if let Item::Marker { counter, .. } = &mut items[k] {
-                *counter ^= 1 << rng.below(4);
+            // half of the time: a later marker whose counter is a power of two, made to read 0 (a second
+            // "counter-0 marker" in the stream: everything in front of it still counts; seed C20-12)
+            let pow2: Vec<usize> = marks
+                .iter()
+                .copied()
+                .filter(|&k| matches!(items[k], Item::Marker { counter, .. } if counter != 0 && counter & (counter - 1) == 0 && counter < 16))
+                .collect();
+            if !pow2.is_empty() && rng.bool() {
+                let k = pow2[rng.below(pow2.len() as u64) as usize];
+                if let Item::Marker { counter, .. } = &mut items[k] {
+                    *counter = 0;
+                }
+            } else {
+                let k = marks[rng.below(marks.len() as u64) as usize];
+                if let Item::Marker { counter, .. } = &mut items[k] {
+                    *counter ^= 1 << rng.below(4);
+                }
             }
         }
     }
